@@ -170,7 +170,32 @@ def make_matcher(mp, cfg):
     return cls(mp, **kw)
 
 
+def gen_laps_case(rnd):
+    """a one-way block driven around more than once: the best path revisits states with other states in between"""
+    n = rnd.choice([3, 4])
+    L = labels(n, rnd.choice(['str', 'int']))
+    pts = [(0, 0), (0, 2), (2, 2), (2, 0)][:n] if n == 4 else [(0, 0), (0, 2), (2, 1)]
+    g = {l: (pts[i], [L[(i + 1) % n]]) for i, l in enumerate(L)}
+    if rnd.random() < 0.5:
+        g[L[0]][1].append(L[-1])
+    per = []
+    for i in range(n):
+        a, b = pts[i], pts[(i + 1) % n]
+        per.append(((a[0] + b[0]) / 2, (a[1] + b[1]) / 2))
+    k = rnd.randint(n + 1, 2 * n + 1)
+    start = rnd.randrange(n)
+    tr = [per[(start + j) % n] for j in range(k)]
+    return g, tr
+
+
 def gen_case(rnd, **kw):
+    if kw.get('laps'):
+        g, tr = gen_laps_case(rnd)
+        cfg = gen_cfg(rnd, family=kw.get('family'), ne=kw.get('ne'), width=kw.get('width'), only_edges=kw.get('only_edges'),
+                      cutoffs=False, avoid_goingback=kw.get('avoid_goingback'))
+        cfg['obs_noise'] = 0.5
+        cfg['max_dist'] = 1.5
+        return {'graph': g, 'trace': tr, 'cfg': cfg}
     g = gen_graph(rnd, n=kw.get('n'), family=kw.get('graph_family'), label_kind=kw.get('label_kind'))
     tr = gen_trace(rnd, g, n=kw.get('trace_len'), kind=kw.get('trace_kind'))
     cfg = gen_cfg(rnd, family=kw.get('family'), ne=kw.get('ne'), width=kw.get('width'), only_edges=kw.get('only_edges'),
